@@ -179,7 +179,7 @@ Definition is_enc_case (c : case) : bool :=
 Theorem bridge_enc : forall H c,
   is_enc_case c = true -> wf_case c = true -> run_caseH H c = true -> prop_caseH H c = true.
 Proof.
-  intros H [ | | which b o | which n o | b o | b o] K W R; try discriminate K; clear K;
+  intros H [ | | which b o | which n o | b o | b o | w b o | api b fill o | count b fill o] K W R; try discriminate K; clear K;
     cbn [wf_case] in W; cbn [run_caseH] in R; cbn [prop_caseH].
   - (* CsRead *)
     destruct (which =? 0).
@@ -209,4 +209,115 @@ Proof.
   - (* OptU32 *)
     rewrite (opt_spec_correct b W). destruct (dec (c_flagopt c_u32le) b) as [[v r]|]; destruct o as [[v' n]| |]; try discriminate R; [|reflexivity].
     apply andb_true_iff in R as [R1 R2]. cbn [consumed_view]. rewrite (consumed_eq _ _ _ R2), R1, N.eqb_refl. reflexivity.
+  - (* ReadT *)
+    unfold readt_spec. change MAX_COMPACT_SIZE with MX. rewrite cs_spec_bounded. cbn [c_read_t c_refine dec] in R.
+    destruct (dec (c_compact MX) b) as [[v r]|]; cbn [consumed_view].
+    + destruct (v <? 2 ^ target_bits w); [|destruct o; try discriminate R; reflexivity].
+      destruct o as [[v' n]| |]; try discriminate R.
+      apply andb_true_iff in R as [R1 R2]. cbn [cs_out_eqb]. rewrite (consumed_eq _ _ _ R2), R1, N.eqb_refl. reflexivity.
+    + destruct o; try discriminate R; reflexivity.
+  - (* VecFill *)
+    apply andb_true_iff in R as [R _]. unfold vecfill_prop. change MAX_COMPACT_SIZE with MX. rewrite cs_spec_bounded.
+    unfold vecfill_model in R. cbv zeta in R.
+    destruct (dec (c_compact MX) (stream_head b fill)) as [[n r]|]; cbn [consumed_view].
+    + destruct (n <=? nlen b + fill - (nlen (stream_head b fill) - nlen r)) eqn:L.
+      * destruct o as [[n' c]|c|]; try discriminate R. unfold fill_eqb in R. cbn [outcome_eqb pair_eqb fst snd] in R.
+        apply andb_true_iff in R as [R1 R2]. apply N.eqb_eq in R1, R2. cbn [fst snd] in R1, R2. subst. rewrite ?L, !N.eqb_refl. reflexivity.
+      * destruct o as [[n' c]|c|]; try discriminate R. unfold fill_eqb in R. cbn [outcome_eqb] in R.
+        apply N.eqb_eq in R. subst c. apply N.leb_gt in L. rewrite (proj2 (N.ltb_lt _ _) L), N.leb_refl. reflexivity.
+    + destruct o as [[n' c]|c|]; try discriminate R. unfold fill_eqb in R. cbn [outcome_eqb] in R.
+      apply N.eqb_eq in R. subst c. destruct (stream_head b fill) as [|f t]; [apply andb_true_iff; split; apply N.leb_le; lia|].
+      assert (cs_width f <= 9) by (unfold cs_width; destruct (f <? 253); [lia|]; destruct (f =? 253); [lia|]; destruct (f =? 254); lia).
+      apply andb_true_iff. split; apply N.leb_le; lia.
+  - (* ArrFill *)
+    apply andb_true_iff in R as [R _]. unfold arrfill_prop. unfold arrfill_model in R. cbv zeta in R.
+    destruct (count <=? nlen b + fill) eqn:L.
+    + destruct o as [[n' c]|c|]; try discriminate R. unfold fill_eqb in R. cbn [outcome_eqb pair_eqb fst snd] in R.
+      apply andb_true_iff in R as [R1 R2]. apply N.eqb_eq in R1, R2. cbn [fst snd] in R1, R2. subst. rewrite ?L, !N.eqb_refl. reflexivity.
+    + destruct o as [[n' c]|c|]; try discriminate R. unfold fill_eqb in R. cbn [outcome_eqb] in R.
+      apply N.eqb_eq in R. subst c. apply N.leb_gt in L. rewrite (proj2 (N.ltb_lt _ _) L), N.leb_refl. reflexivity.
+Qed.
+
+(* ---------------------------------------------------------------------------------------- *)
+(** * The arithmetic model used for long readers is the vector codec [c_vec MX c_u8] applied to
+      the whole stream [b ++ 0^fill], whatever [fill] is. *)
+
+Lemma dec_u8_byte x r : x < 256 -> dec c_u8 (x :: r) = Some (x, r).
+Proof.
+  intros Hx. cbn [c_u8 c_uint dec take forallb]. unfold is_byte. rewrite (proj2 (N.ltb_lt _ _) Hx).
+  cbn [andb of_le]. rewrite N.mul_0_r, N.add_0_r. reflexivity.
+Qed.
+
+Lemma dec_rep_u8 n : forall l : bytes, is_bytes l = true -> (n <= length l)%nat ->
+  dec_rep c_u8 n l = Some (firstn n l, skipn n l).
+Proof.
+  induction n as [|n IH]; intros l B L; [reflexivity|].
+  destruct l as [|x l]; [cbn in L; lia|]. unfold is_bytes in B. cbn [forallb] in B.
+  apply andb_true_iff in B as [Bx Bl]. unfold is_byte in Bx. apply N.ltb_lt in Bx.
+  cbn [dec_rep]. rewrite dec_u8_byte by exact Bx. rewrite IH by (try exact Bl; cbn in L; lia). reflexivity.
+Qed.
+
+Lemma is_bytes_zeros k : is_bytes (repeat 0 k) = true.
+Proof. induction k; [reflexivity|]. cbn. exact IHk. Qed.
+
+(** the CompactSize decoder looks at no more than nine bytes *)
+Lemma compact_none_extend mx (s x : bytes) : (9 <= length s)%nat ->
+  dec (c_compact mx) s = None -> dec (c_compact mx) (s ++ x) = None.
+Proof.
+  intros L D. destruct (dec (c_compact mx) (s ++ x)) as [[n r]|] eqn:E; [|reflexivity]. exfalso.
+  pose proof (canon _ (c_compact_ok mx) _ _ _ E) as [Eq W].
+  cbn [c_compact c_refine c_compact_raw enc] in Eq.
+  assert (Le : (length (enc_compact n) <= 9)%nat).
+  { destruct (enc_compact_lengths n) as [A|[A|[A|A]]]; cbv zeta in A; rewrite A; lia. }
+  assert (P : s = enc_compact n ++ firstn (length s - length (enc_compact n)) r).
+  { pose proof (f_equal (firstn (length s)) Eq) as F.
+    rewrite firstn_app, Nat.sub_diag, firstn_all, firstn_O, app_nil_r in F.
+    rewrite firstn_app in F. rewrite (firstn_all2 (enc_compact n)) in F by lia. exact F. }
+  rewrite P in D. change (enc_compact n) with (enc (c_compact mx) n) in D at 1.
+  rewrite (rt _ (c_compact_ok mx)) in D by exact W. discriminate.
+Qed.
+
+Lemma stream_split (b : bytes) fill :
+  b ++ repeat 0 (N.to_nat fill) = stream_head b fill ++ repeat 0 (N.to_nat (fill - N.min fill 9)).
+Proof.
+  unfold stream_head. rewrite <- app_assoc, <- repeat_app. f_equal. f_equal. lia.
+Qed.
+
+Theorem vecfill_model_is_c_vec : forall (b : bytes) fill, is_bytes b = true ->
+  match vecfill_model b fill with
+  | Ok (n, c) => exists l r, dec (c_vec MX c_u8) (b ++ repeat 0 (N.to_nat fill)) = Some (l, r) /\
+                             nlen l = n /\ c + nlen r = nlen b + fill
+  | Err _ => dec (c_vec MX c_u8) (b ++ repeat 0 (N.to_nat fill)) = None
+  | Panic => False
+  end.
+Proof.
+  intros b fill B. unfold vecfill_model. cbv zeta.
+  pose proof (stream_split b fill) as SP.
+  assert (TS : nlen (b ++ repeat 0 (N.to_nat fill)) = nlen b + fill).
+  { rewrite nlen_app. unfold nlen at 2. rewrite repeat_length. lia. }
+  assert (BS : is_bytes (b ++ repeat 0 (N.to_nat fill)) = true) by (rewrite is_bytes_app, B, is_bytes_zeros; reflexivity).
+  rewrite SP in TS, BS. rewrite SP. clear SP.
+  set (s9 := stream_head b fill) in *. set (x := repeat 0 (N.to_nat (fill - N.min fill 9))) in *.
+  destruct (dec (c_compact MX) s9) as [[n r]|] eqn:D.
+  - pose proof (canon_length _ (c_compact_ok MX) _ _ _ D) as CL.
+    assert (K : nlen b + fill - (nlen s9 - nlen r) = nlen (r ++ x)).
+    { rewrite <- TS, !nlen_app. unfold nlen in *. lia. }
+    rewrite K.
+    assert (DV : dec (c_vec MX c_u8) (s9 ++ x) =
+                 if n <=? nlen (r ++ x) then dec_rep c_u8 (N.to_nat n) (r ++ x) else None).
+    { cbn [c_vec dec]. rewrite (dec_extend _ (c_compact_ok MX) _ _ _ x D). reflexivity. }
+    destruct (n <=? nlen (r ++ x)) eqn:L; [|exact DV].
+    apply N.leb_le in L.
+    assert (BR : is_bytes (r ++ x) = true).
+    { apply (canon _ (c_compact_ok MX)) in D as [E _]. rewrite E, <- app_assoc in BS.
+      rewrite is_bytes_app in BS. apply andb_true_iff in BS as [_ BS]. exact BS. }
+    rewrite dec_rep_u8 in DV by (try exact BR; unfold nlen in L; lia).
+    eexists _, _. split; [exact DV|]. split.
+    + unfold nlen in *. rewrite firstn_length. lia.
+    + rewrite <- TS, nlen_app. unfold nlen in *. rewrite skipn_length, !app_length in *. lia.
+  - cbn [c_vec dec]. destruct (N.leb_spec fill 9) as [F|F].
+    + assert (x = []) as -> by (unfold x; replace (fill - N.min fill 9) with 0 by lia; reflexivity).
+      rewrite app_nil_r, D. reflexivity.
+    + rewrite compact_none_extend; [reflexivity| |exact D].
+      unfold s9, stream_head. rewrite app_length, repeat_length. lia.
 Qed.
